@@ -3,7 +3,7 @@ import math
 
 from .. import world as _w   # virtual clock
 from ..report import Outcome, tier
-from ..seq import Spec, run_specs, rebuild
+from ..seq import Spec, run_specs, rebuild, checked_apply
 
 from supvisors.statscompiler import HostStatisticsCompiler, ProcStatisticsCompiler
 
@@ -365,7 +365,7 @@ def main():
         for v, hist in r.violations:
             for _ in range(2):
                 st = rebuild(spec, hist[:-1])
-                errs = spec.apply(st, hist[-1])
+                errs = checked_apply(spec, st, hist[-1])
                 assert v['signature'] in [e['signature'] for e in errs], 'violation did not reproduce'
             out.report(v, {'driver': spec.name, 'config': {'periods': spec.periods, 'histo': spec.histo,
                                                             'kind': 'host' if isinstance(spec, HostSpec) else 'proc'},
@@ -387,7 +387,7 @@ def replay(payload):
     spec = (HostSpec if cfg['kind'] == 'host' else ProcSpec)(cfg['periods'], cfg['histo'])
     hist = [tuple(o) for o in payload['events']]
     st = rebuild(spec, hist[:-1])
-    errs = spec.apply(st, hist[-1])
+    errs = checked_apply(spec, st, hist[-1])
     print('history:', hist)
     print('oracle:', errs)
     if payload.get('signature') in [e['signature'] for e in errs]:
